@@ -336,7 +336,7 @@ end Fit
 namespace Fit
 
 theorem msgWF_bounds (pm : PMsg) (h : msgWF pm = true) :
-    pm.num < 65536 ∧ pm.layout.length < 256 ∧ (pm.hasType = true → pm.hasCtor = true → pm.invalid.length = pm.layout.length) ∧
+    pm.num < 65535 ∧ pm.layout.length < 256 ∧ (pm.hasType = true → pm.hasCtor = true → pm.invalid.length = pm.layout.length) ∧
     (∀ pf ∈ pm.fields, fieldWF pm pf = true) := by
   unfold msgWF at h
   simp only [Bool.and_eq_true, decide_eq_true_eq, Bool.or_eq_true, Bool.not_eq_true', List.all_eq_true] at h
@@ -359,7 +359,8 @@ theorem encodeOne_items (P : Profile) (hwf : ProfileWF P = true) (arch : Endian)
     (h : encodeOne P arch m = .ok bs) :
     ∃ (fs : List PField) (parts : List Bytes),
       bs = serialize [.defn (defOf arch m.num fs) false, .data 0 parts []] ∧
-      FieldsFit (defOf arch m.num fs).fields parts ∧ DefnWF (defOf arch m.num fs) false := by
+      FieldsFit (defOf arch m.num fs).fields parts ∧ DefnWF (defOf arch m.num fs) false ∧
+      ∃ pm, P.msg? m.num = some pm ∧ ∀ pf ∈ fs, pf ∈ pm.fields := by
   unfold encodeOne at h
   cases hpm : P.msg? m.num with
   | none => rw [hpm] at h; cases h
@@ -391,7 +392,7 @@ theorem encodeOne_items (P : Profile) (hwf : ProfileWF P = true) (arch : Endian)
             injection hmb with hmb
             subst hmb
             obtain ⟨parts, hp1, hp2⟩ := concatE_ok _ _ hc
-            refine ⟨fs, parts, ?_, parts_fit arch pm m fs parts hfw hp1, ?_⟩
+            refine ⟨fs, parts, ?_, parts_fit arch pm m fs parts hfw hp1, ?_, ⟨pm, rfl, hmem⟩⟩
             · rw [defBytes_eq, hp2]
               simp [serialize, serializeItem, u8]
             · have hvl : m.vals.length = pm.invalid.length := by
@@ -403,7 +404,7 @@ theorem encodeOne_items (P : Profile) (hwf : ProfileWF P = true) (arch : Endian)
               have hil := hinv htc.2 htc.1
               refine ⟨by show (0 : Nat) < 16; omega, ?_, ?_, ?_, (fun h => by cases h), (fun h => by cases h)⟩
               · show m.num < 65536
-                rw [← msg?_num P m.num pm hpm]; exact hnum
+                rw [← msg?_num P m.num pm hpm]; omega
               · show (fs.map fdOf).length < 256
                 rw [List.length_map]; omega
               · intro f hf
@@ -452,7 +453,7 @@ theorem pair_fits (P : Profile) (st : DecSt) (d : DefMsg) (parts : List Bytes) (
 theorem encodeOne_self_describing (P : Profile) (hwf : ProfileWF P = true) (arch : Endian) (m : Msg) (bs : Bytes)
     (h : encodeOne P arch m = .ok bs) :
     ∃ its : List Item, bs = serialize its ∧ ∀ st : DecSt, 0 < st.defs.length → ItemsFit P st its := by
-  obtain ⟨fs, parts, hbs, hfit, hd⟩ := encodeOne_items P hwf arch m bs h
+  obtain ⟨fs, parts, hbs, hfit, hd, _⟩ := encodeOne_items P hwf arch m bs h
   exact ⟨_, hbs, fun st hst => pair_fits P st _ parts hst rfl rfl hd hfit⟩
 
 end Fit
@@ -660,7 +661,7 @@ theorem encodeGroup_self_describing (P : Profile) (hwf : ProfileWF P = true) (ar
               apply group_fits P st _ partss hst rfl rfl ?_ hfit
               refine ⟨by show (0 : Nat) < 16; omega, ?_, hlt, ?_, (fun h => by cases h), (fun h => by cases h)⟩
               · show m0.num < 65536
-                rw [← msg?_num P m0.num pm hpm]; exact hnum
+                rw [← msg?_num P m0.num pm hpm]; omega
               · intro f hf
                 simp only [defOf, List.mem_map] at hf
                 obtain ⟨pf, hpf, rfl⟩ := hf
